@@ -81,6 +81,8 @@ Definition parse_field (s : string) : res (field * string) :=
     match r with
     | EmptyString => Err "ValueError" "end of string while looking for conversion specifier"
     | String cv r1 =>
+        (* a non-ASCII conversion character spans several bytes of this byte-string model: outside it *)
+        if Nat.leb 128 (nat_of_ascii cv) then Unsup else
         match r1 with
         | EmptyString => Err "ValueError" "unmatched '{' in format spec"
         | String c2 r2 =>
